@@ -45,6 +45,16 @@ Extensions for the T-marshal layer (segment header / time helpers); each is opt-
                    *record constructors*: `C(a, b, c)` with positional arguments only is the tuple (a, b, c) with the
                    declared component types (the constructor must only store its arguments: hand-checked, and
                    covered by the translation validation of the callers).
+  Fn(ctors={'UUID': {'keywords': [('fields', tup(Z, Z, Z, Z, Z, Z)), ('version', Z)]}})
+                   keyword form: `m.UUID(fields=(...), version=1)` (exactly these keywords, no positional arguments)
+                   is the tuple of the keyword values in the declared order.  What the constructor computes from
+                   them (uuid.UUID: field range checks, version/variant bits) is a hand model.
+  Fn(tail_from='time_low', tail_inputs=[('intervals', Z)])
+                   *tail translation*: only the suffix of the function body starting at the first top-level
+                   statement that assigns the name `tail_from` is translated; the listed local variables are extra
+                   parameters (after the declared ones) holding their values at that program point.  The result
+                   describes what the code computes from there on; the skipped prefix (e.g. float arithmetic) is
+                   outside the subset and stays untranslated.  Rejected if the prefix assigns a typed parameter.
 """
 import ast, os, textwrap
 
@@ -283,12 +293,15 @@ class Fn(object):
     """
 
     def __init__(self, path, qual, name, params, ret, fuels=(), self_in=None, state_out=None,
-                 externs=None, ignore_calls=(), assume=None, sinks=None, sources=None, ctors=None):
+                 externs=None, ignore_calls=(), assume=None, sinks=None, sources=None, ctors=None,
+                 tail_from=None, tail_inputs=()):
         self.path, self.qual, self.name, self.params, self.ret = path, qual, name, params, ret
         # sinks / sources / ctors: see the module docstring ("Extensions for the T-marshal layer")
         self.sinks = dict(sinks or {})
         self.sources = dict(sources or {})
         self.ctors = dict(ctors or {})
+        self.tail_from = tail_from
+        self.tail_inputs = list(tail_inputs)
         self.fuels = list(fuels)
         self.self_in = self_in or {}
         self.state_out = state_out or []
@@ -560,7 +573,29 @@ class FnTranslator(object):
                 raise Unsupported('state_out %s must also be in self_in' % attr)
         for (i, t) in sorted(self.source_sites.values()):
             params.append('(in_%d : %s)' % (i, coq_type(t)))
-        body = self.block(self.node.body, env, None)
+        stmts = list(self.node.body)
+        if self.fn.tail_from is not None:
+            idx = None
+            for i, st in enumerate(stmts):
+                if isinstance(st, ast.Assign) and any(isinstance(t, ast.Name) and t.id == self.fn.tail_from
+                                                      for t in st.targets):
+                    idx = i
+                    break
+            if idx is None:
+                raise Unsupported('%s: no top-level assignment to %s (tail_from)' % (self.fn.name, self.fn.tail_from))
+            for st in stmts[:idx]:
+                for n in ast.walk(st):
+                    if isinstance(n, ast.Name) and isinstance(n.ctx, ast.Store) and n.id in env:
+                        raise Unsupported('%s: the untranslated prefix assigns parameter %s' % (self.fn.name, n.id))
+            stmts = stmts[idx:]
+            for (n, t) in self.fn.tail_inputs:
+                if n in env:
+                    raise Unsupported('%s: tail input %s is also a parameter' % (self.fn.name, n))
+                env[n] = t
+                params.append('(%s : %s)' % (self.cname(n), coq_type(t)))
+        elif self.fn.tail_inputs:
+            raise Unsupported('%s: tail_inputs without tail_from' % self.fn.name)
+        body = self.block(stmts, env, None)
         if self.trace_type is not None:
             body = 'let out_ := [] in\n' + body
         rt = coq_type(self.ret_type())
@@ -1307,7 +1342,22 @@ class FnTranslator(object):
             idx, t = self.source_sites[id(node)]
             return 'in_%d' % idx, t
         # record constructors: a tuple of the (positional) arguments
-        if isinstance(f, ast.Name) and f.id in self.fn.ctors and f.id not in env:
+        if nm in self.fn.ctors and isinstance(self.fn.ctors[nm], dict) and (
+                (isinstance(f, ast.Name) and f.id not in env) or
+                (isinstance(f, ast.Attribute) and isinstance(f.value, ast.Name) and f.value.id not in env)):
+            kwspec = self.fn.ctors[nm].get('keywords') or []
+            if node.args or sorted(k.arg for k in node.keywords) != sorted(n for (n, _t) in kwspec) or not kwspec:
+                raise Unsupported('%s: constructor %s call shape (keywords)' % (self.fn.name, nm))
+            kws = {k.arg: k.value for k in node.keywords}
+            parts, types = [], []
+            for (kn, kt) in kwspec:
+                e, t = self.expr(kws[kn], kt, env, hoisted)
+                e, t = self.coerce(e, t, kt)
+                parts.append(e)
+                types.append(kt)
+            return '(' + ', '.join(parts) + ')', tup(*types)
+        if isinstance(f, ast.Name) and f.id in self.fn.ctors and f.id not in env \
+                and not isinstance(self.fn.ctors[f.id], dict):
             types = self.fn.ctors[f.id]
             if node.keywords or len(node.args) != len(types):
                 raise Unsupported('%s: constructor %s call shape' % (self.fn.name, f.id))
